@@ -22,7 +22,15 @@ type Gen struct {
 	long      bool
 	longNames []string
 	longKeys  []string
+	queue     []qitem // scripted events that follow a create carrying another session's cookie
+	ended     int     // sessions that have ended so far (a retired cookie exists)
 	Stats     map[string]int
+}
+
+type qitem struct {
+	op   string // try delete
+	s    int
+	name string
 }
 
 type gslot struct {
@@ -215,6 +223,7 @@ func (g *Gen) advance(dt int64) {
 	for i := range g.slots {
 		if g.slots[i].alive && !g.slots[i].grpc && g.now >= g.slots[i].last+g.cfg.Tmo {
 			g.slots[i].alive = false
+			g.ended++
 			g.Stats["expected_expiry"]++
 		}
 	}
@@ -280,6 +289,27 @@ func (g *Gen) Next(i int) (Ev, bool) {
 		g.probe = false
 		return Ev{Op: "probe"}, true
 	}
+	for len(g.queue) > 0 {
+		q := g.queue[0]
+		g.queue = g.queue[1:]
+		if !g.slots[q.s].alive {
+			continue
+		}
+		g.made++
+		g.probe = true
+		if q.op == "delete" {
+			g.slots[q.s].alive = false
+			g.ended++
+			g.Stats["g_delete_live"]++
+			g.Stats["scripted_after_create_with_cookie"]++
+			return Ev{Op: "delete", S: q.s, Ck: "own"}, true
+		}
+		g.touch(q.s, "own")
+		one := int32(1)
+		g.tries = append(g.tries, gtry{idx: i, name: q.name, grpc: g.slots[q.s].grpc})
+		g.Stats["scripted_after_create_with_cookie"]++
+		return Ev{Op: "req", S: q.s, Ck: "own", Q: "try", Name: q.name, Size: &one, Body: "camel"}, true
+	}
 	if g.made >= g.n {
 		return Ev{}, false
 	}
@@ -288,6 +318,15 @@ func (g *Gen) Next(i int) (Ev, bool) {
 	c15 := g.p.Mode == "c15" || g.p.Mode == "mixed"
 	al := g.aliveSlots()
 	op := g.weighted()
+	if g.p.Mode == "c15" && op == "create" && len(al) > 0 && g.p.CreateCkPct > 0 && g.r.IntN(100) < g.p.CreateCkPct/3 {
+		// a client posts to /session again with the cookie of its own LIVE session, goes on with what it gets and closes the old one
+		s := al[g.r.IntN(len(al))]
+		g.slots[s].last = g.now
+		g.ended++
+		g.Stats["g_create"]++
+		g.Stats["g_create_ck_own_live"]++
+		return Ev{Op: "create", S: s, Ck: "own"}, true
+	}
 	if g.made == 1 || (g.p.Mode == "mixed" && g.made == 2) || (len(al) == 0 && (c15 || g.r.IntN(100) < 70) && op != "adv") {
 		op = "create"
 	}
@@ -314,8 +353,40 @@ func (g *Gen) Next(i int) (Ev, bool) {
 				}
 				s = g.r.IntN(len(g.slots))
 			}
+			wasMade, wasAlive := g.slots[s].made, g.slots[s].alive
 			g.slots[s] = gslot{made: true, alive: true, last: g.now}
 			g.Stats["g_create"]++
+			if g.p.Mode != "mixed" && g.p.CreateCkPct > 0 && g.r.IntN(100) < g.p.CreateCkPct {
+				// the POST carries a cookie; a fresh, independent session must come back all the same
+				cls := []string{"garbage"}
+				others := []int{}
+				for _, a := range al {
+					if a != s {
+						others = append(others, a)
+					}
+				}
+				if len(others) > 0 {
+					cls = append(cls, "other", "other", "other")
+				}
+				if g.ended > 0 {
+					cls = append(cls, "ended", "ended")
+				}
+				if wasMade && (!c15 || !wasAlive) {
+					cls = append(cls, "own", "own")
+				}
+				ev := Ev{Op: "create", S: s, Ck: cls[g.r.IntN(len(cls))]}
+				g.Stats["g_create_ck_"+ev.Ck]++
+				if ev.Ck == "other" {
+					ev.Cs = others[g.r.IntN(len(others))]
+					// both sessions are then used as independent connections: a lock in each, the new one ends, (probe), the old one ends
+					g.queue = append(g.queue, qitem{"try", ev.Cs, "6a61722d61"}, qitem{"try", s, "6a61722d62"}, qitem{"delete", s, ""})
+					if g.r.IntN(2) == 0 {
+						g.queue = append(g.queue, qitem{"try", ev.Cs, "6a61722d63"})
+					}
+					g.queue = append(g.queue, qitem{"delete", ev.Cs, ""})
+				}
+				return ev, true
+			}
 			if g.p.Mode == "mixed" {
 				if s%2 == 1 {
 					g.slots[s].grpc = true
@@ -335,6 +406,9 @@ func (g *Gen) Next(i int) (Ev, bool) {
 					g.Stats["g_delete_live"]++
 				} else {
 					g.Stats["g_delete_dead"]++
+				}
+				if g.slots[s].alive {
+					g.ended++
 				}
 				g.slots[s].alive = false
 			}
